@@ -166,6 +166,25 @@ PROPS["C10"] = {"theorems": [], "run": _run_schema, "replay": _replay_schema,
                         "to_named_json_schema with arbitrary names / ref locations; non-trivial = a schema was produced"}
 
 
+def _run_c11(pid: str, tier: str, seed: int, spec: dict, scale: float = 1.0, salt: str = "") -> dict:
+    from . import c11_stream
+    return c11_stream.run(pid, tier, seed, spec, scale, salt)
+
+
+def _replay_c11(case: dict) -> List[str]:
+    from . import c11_stream
+    return c11_stream.replay_case(case)
+
+
+PROPS["C11"] = {"theorems": [], "run": _run_c11, "replay": _replay_c11,
+                "rule": "validator trees of the JSON-native fragment to depth 3 (scalars with every supported predicate, "
+                        "lists / uniform / n-tuples, string-keyed maps, the five record kinds with optional keys and both "
+                        "unknown-key policies, optionals, unions, named recursive definitions) x 6 JSON values each "
+                        "(conforming, conforming except at one position, arbitrary); the verdict of the real validator is "
+                        "compared with jsonschema's evaluation (integer = int, number = float, nullable) of the real "
+                        "schema; non-trivial = the validator accepted one and rejected another of the case's values"}
+
+
 def _run_ann(pid: str, tier: str, seed: int, spec: dict, scale: float = 1.0, salt: str = "") -> dict:
     from . import ann_stream
     return ann_stream.run(pid, tier, seed, spec, scale, salt)
